@@ -26,7 +26,7 @@ ROOT = os.path.dirname(os.path.dirname(os.path.abspath(__file__)))
 # parallel, each against its own scratch worktree (VERIF_REPO), with its own Go binaries (VERIF_BUILD) and its own
 # evidence / replay directory (VERIF_OUT); the Coq development and the extracted model runner are shared, read-only.
 REPO = os.environ.get("VERIF_REPO", "/repo")
-ALT = REPO != "/repo"
+ALT = REPO != "/repo" and not os.environ.get("VERIF_OWN_DEV")      # (VERIF_OWN_DEV: a full copy of /verif working on another tree rebuilds its own development)
 MBUILD = os.path.join(ROOT, "build")
 BUILD = os.environ.get("VERIF_BUILD", MBUILD)
 OUT = os.environ.get("VERIF_OUT", ROOT)
@@ -84,8 +84,52 @@ def _coq_make():
         rc, out = sh("coq_makefile -f _CoqProject -o Makefile", cwd=COQ)
         if rc != 0:
             raise Infra("coq_makefile failed:\n" + out)
-    rc, out = sh("timeout 3000 make -j16", cwd=COQ, timeout=3100)
+    rc, out = sh("timeout 3000 make -j16 -k", cwd=COQ, timeout=3100)
     return rc, out
+
+
+# ---- which model files a property's theorems rest on, and which generated constants are about which model
+CONST_MODEL = {"blank": "D3", "possi_cases": "D3", "multiarch_stop": "D3", "controllers_cases": "D3", "number_cases": "D3", "arch_cases": "D3",
+               "stage_cases": "D3", "substvar_cases": "D3", "ar_columns": "AR", "ar_magic": "AR", "ar_header_len": "AR", "when_layout": "DATE",
+               "deb_versions": "D16", "copy_open_flags": "U20", "copy_removes_first": "U20"}
+# properties whose tie decodes or encodes through the regenerated struct schemas (Run.v: Schema_gen), besides those whose
+# theorems Require it
+SCHEMA_USERS = {"C09", "C10", "C14", "C15", "C16", "C18", "C19"}
+
+
+def require_closure(pid):
+    """the modules the property file (and its witness file) Require, transitively - by reading the sources"""
+    seen = set()
+
+    def walk(mod):
+        path = os.path.join(THEORIES, mod + ".v")
+        if not os.path.exists(path):
+            path = os.path.join(GEN, mod + ".v")
+        if mod in seen or not os.path.exists(path):
+            return
+        seen.add(mod)
+        for m in re.finditer(r"^\s*(?:From\s+\S+\s+)?Require\s+(?:Import\s+|Export\s+)?([^.]*)\.", open(path).read(), re.M):
+            for w in m.group(1).split():
+                walk(w)
+    walk(pid)
+    walk(pid + "w")
+    return seen
+
+
+def relevant_modules(pid):
+    """the closure plus, for every model in it that has one, the file that proves its tables equal to the source's"""
+    mods = require_closure(pid)
+    return mods | {"SRC_" + m for m in mods if os.path.exists(os.path.join(THEORIES, "SRC_" + m + ".v"))}
+
+
+def failed_modules(make_out):
+    """the files a keep-going make could not build"""
+    return set(re.findall(r"\*\*\* \[[^\]]*?(?:theories|gen)/(\w+)\.vo\] Error", make_out)) | \
+        set(re.findall(r'^File "\./(?:theories|gen)/(\w+)\.v", line', make_out, re.M))
+
+
+def consts_defs(text):
+    return dict(re.findall(r"^Definition (\w+) : [^:=]*:= (.*)\.$", text or "", re.M))
 
 
 def newest_mtime(paths):
@@ -199,17 +243,18 @@ def regen_schema():
 
 def regen_consts():
     """Regenerate coq/gen/Consts_gen.v from the SOURCE TEXT of the tree under test (dispatch tables, header columns, layouts:
-    driver/srcconsts.py); SRC.v proves the models' constants equal to it."""
+    driver/srcconsts.py); the SRC_ files prove the models' constants equal to it."""
     import srcconsts
     try:
         out = srcconsts.render(srcconsts.extract(REPO)) + "\n"
-    except Exception as e:            # a source the extractor cannot read any more: SRC.v will not check against an empty table
+    except Exception as e:            # (every area is read on its own and drops out on its own; this is a failure of the renderer)
         out = "(* extraction failed: %s *)\n" % str(e).replace("*)", "* )")
     path = os.path.join(GEN, "Consts_gen.v")
     old = open(path).read() if os.path.exists(path) else None
     if old != out:
         if ALT:
-            return "differs"
+            a, b = consts_defs(old), consts_defs(out)
+            return sorted(k for k in set(a) | set(b) if a.get(k) != b.get(k)) or (["(unreadable)"] if not (a and b) else False)
         open(path, "w").write(out)
         return True
     return False
@@ -355,15 +400,23 @@ class Check:
             if r != ["ok"]:
                 raise Infra("could not generate the OpenPGP test keys: %r" % r)
         self.schema_changed = regen_schema()
-        if self.schema_changed == "differs":
+        closure = require_closure(self.pid)
+        if self.schema_changed == "differs" and ("Schema_gen" in closure or self.pid in SCHEMA_USERS):
             self.broken.append("the struct tags dumped from this tree differ from coq/gen/Schema_gen.v (scratch worktree: the shared development is not rebuilt)")
-        if regen_consts() == "differs":
-            self.broken.append("the dispatch tables / header columns / layouts read from this tree's source text differ from coq/gen/Consts_gen.v, against which SRC.v proves the models' constants (scratch worktree: the shared development is not rebuilt)")
+        rcn = regen_consts()
+        if isinstance(rcn, list):
+            mine = [k for k in rcn if CONST_MODEL.get(k, "?") in closure or k == "(unreadable)" or k not in CONST_MODEL]
+            if mine:
+                self.broken.append("read from this tree's source text, %s differ(s) from coq/gen/Consts_gen.v, against which SRC_%s.v proves the model's constants (scratch worktree: the shared development is not rebuilt)"
+                                   % (", ".join(mine), "/".join(sorted({CONST_MODEL.get(k, "?") for k in mine}))))
         rc, out = coq_make()
-        self.make_ok = (rc == 0)
+        # a keep-going build: a file that no longer compiles is held against the properties whose theorems rest on it (the Require
+        # closure of the property file, and the SRC_ files of the models in it) - not against the others
+        failed = failed_modules(out) if rc != 0 else set()
+        self.make_ok = (rc == 0) or (bool(failed) and not (failed & relevant_modules(self.pid)))
         self.make_out = out
         if rc != 0:
-            self.notes.append("coq make failed")
+            self.notes.append("coq make failed: " + ", ".join(sorted(failed)) + (" (none of them under this property)" if self.make_ok else ""))
         try:
             self.modelrun = build_model()
         except Infra:
